@@ -896,6 +896,7 @@ func init() {
 			rs.N = d.Pick(1, 4)
 			rs.TimeoutS = int(d.Pick(300, 600))
 			specs = append(specs, rs)
+			specs = d.WithRuntimeVariants(specs, int(d.Pick(2, 1)), func(s Spec) bool { return s.Kind == "concurrent" || s.Kind == "free" })
 			outs := d.RunWorkers(specs, 16)
 			d.raceVerdict(outs)
 			d.Extra["exhaustive"] = true
